@@ -124,7 +124,7 @@ def _(run):
 t = Target('xml_resource.parse.propagation', ['C12', 'C13'], 'xmlschema/resources/xml_resource.py', 'XMLResource.parse',
            note='parse() rebuilds the resource from self.get_arguments() (every Argument descriptor of the class, hence allow, base_url, defuse, uri_mapper, opener, block) '
                 'with only source and lazy replaced',
-           assumes=['syntactic obligation on the real AST'])
+           assumes=['syntactic obligation on the real AST; get_arguments() is evaluated on real XMLResource / XmlDocument objects (run-time clause)'])
 
 
 @t.symbolic
@@ -135,14 +135,19 @@ def _(run):
     over = [s for s in src if s.startswith('kwargs[')]
     run.vc('only-source-and-lazy-overridden', pre, [], z3.BoolVal(sorted(over) == ["kwargs['lazy'] = lazy", "kwargs['source'] = source"]), 'ast')
     run.vc('rebuilt-with-all-arguments', pre, [], z3.BoolVal('other = self.__class__(**kwargs)' in src), 'ast')
-    ga = locate(ex.tree, 'XMLResource.get_arguments')
-    body = [ast.unparse(s) for s in ga.body if not (isinstance(s, ast.Expr) and isinstance(s.value, ast.Constant))]
-    run.vc('get_arguments-returns-every-Argument', pre, [],
-           z3.BoolVal(body == ['return {k: getattr(self, k) for k, v in self.__class__.__dict__.items() if isinstance(v, Argument)}']), 'ast')
+    # get_arguments() is decided on the real objects (a run-time clause, not a text match): for the class and for its subclass in the package
+    # every Argument descriptor of the MRO is returned with the value the object was created with
     import xmlschema
     from xmlschema.arguments import Argument
     have = {k for k, v in xmlschema.XMLResource.__dict__.items() if isinstance(v, Argument)}
     run.vc('security-options-are-Arguments', pre, [], z3.BoolVal({'allow', 'base_url', 'defuse', 'timeout', 'uri_mapper', 'opener', 'block'} <= have), 'ast')
+    sch = xmlschema.XMLSchema10('<xs:schema xmlns:xs="http://www.w3.org/2001/XMLSchema"><xs:element name="r"/></xs:schema>')
+    marks = dict(allow='none', defuse='always', timeout=7, base_url='/verif-mark')
+    for label, obj in (('XMLResource', xmlschema.XMLResource('<r/>', **marks)), ('XmlDocument', xmlschema.XmlDocument('<r/>', schema=sch, **marks))):
+        names = {k for c in type(obj).__mro__ for k, v in c.__dict__.items() if isinstance(v, Argument)}
+        got = obj.get_arguments()
+        run.vc(f'get_arguments-returns-every-Argument-of-the-class-hierarchy', pre, [], z3.BoolVal(names <= set(got)), label + ' missing=' + ','.join(sorted(names - set(got))))
+        run.vc(f'get_arguments-returns-the-values-of-the-object', pre, [], z3.BoolVal(all(got.get(k) == v for k, v in marks.items())), label)
     run.paths = 1
 
 
